@@ -27,6 +27,14 @@ const PROP: &str = "C14";
 const KEYS: [[u8; 4]; 4] =
     [[0x37, 0xfa, 0x21, 0x3d], [0x01, 0x02, 0x04, 0x08], [0xff, 0xff, 0xff, 0xff], [0, 0, 0, 0]];
 const MAX_SIZES: [usize; 4] = [0, 125, 126, 65_536];
+const MAX_SIZES_THOROUGH: [usize; 9] = [0, 1, 124, 125, 126, 127, 65_535, 65_536, 65_537];
+fn max_sizes(thorough: bool) -> &'static [usize] {
+    if thorough {
+        &MAX_SIZES_THOROUGH
+    } else {
+        &MAX_SIZES
+    }
+}
 
 #[derive(Default)]
 struct JobOut {
@@ -170,6 +178,12 @@ fn templates(thorough: bool) -> Vec<(String, Vec<T>)> {
     add("announce-ping-65536", vec![t(OP_PING, true, 65_536).present(10)]);
     add("announce-65537-partial", vec![t(OP_BIN, false, 65_537).present(300)]);
     add("announce-127-partial", vec![t(OP_TEXT, true, 127).present(20)]);
+    if thorough {
+        add("legal-medium-1000", vec![t(OP_BIN, false, 1000), t(OP_PING, true, 0), t(OP_CONT, true, 1000)]);
+        add("legal-medium-mixed", vec![t(OP_TEXT, true, 300), t(OP_BIN, true, 126), t(OP_TEXT, false, 127), t(OP_CONT, false, 128), t(OP_CONT, true, 255), t(OP_CLOSE, true, 125)]);
+        add("ill-medium-late-error", vec![t(OP_TEXT, true, 700), t(OP_BIN, false, 500), t(OP_TEXT, false, 200), t(OP_TEXT, true, 1)]);
+        add("unspec-medium-nonminimal64", vec![t(OP_BIN, true, 600).form(2), t(OP_TEXT, true, 126).form(2), t(OP_TEXT, true, 1)]);
+    }
     // one frame of every kind × boundary length between two small frames
     let lens: &[u64] = if thorough { &[0, 1, 2, 124, 125, 126, 127, 128] } else { &[0, 1, 125, 126] };
     let ops: Vec<u8> = if thorough { (0u8..16).collect() } else { vec![0, 1, 2, 8, 9, 10, 3, 11] };
@@ -307,13 +321,17 @@ fn seg_twin_job(label: String, ts: Vec<T>, server: bool, max_size: usize, full_l
         one(&all1, &mut o);
         for_each_subset(&inner, 1, n, &mut |sg| one(sg, &mut o));
         let mut depth = 1;
-        if n <= pair_limit {
+        let in_time = || deadline.map(|d| Instant::now() < d).unwrap_or(true);
+        if (n <= pair_limit || (!full && inner.len() <= 90)) && in_time() {
             for_each_subset(&inner, 2, n, &mut |sg| one(sg, &mut o));
             depth = 2;
         }
-        if n <= triple_limit && deadline.map(|d| Instant::now() < d).unwrap_or(true) {
+        if n <= triple_limit && in_time() {
             for_each_subset(&inner, 3, n, &mut |sg| one(sg, &mut o));
             depth = 3;
+        }
+        if !in_time() {
+            o.capped = true;
         }
         // canonical observation: the final outcome of the stream (all segmentations collapse to one)
         for k in finals.keys() {
@@ -531,7 +549,7 @@ fn strict_seq_alphabet(server: bool) -> Vec<FrameSpec> {
 /// un-merged twin of the strictness search: all frame sequences of length <= depth, each run
 /// from a fresh codec through the stream oracle (fed frame by frame, and as one buffer)
 fn strict_seq_job(server: bool, max_size: usize, depth: usize, first: usize) -> Job {
-    Box::new(move |_| {
+    Box::new(move |deadline| {
         let alpha = strict_seq_alphabet(server);
         let mut o = JobOut { part: "strict-unmerged", ..Default::default() };
         let mut idx = vec![first];
@@ -546,12 +564,18 @@ fn strict_seq_job(server: bool, max_size: usize, depth: usize, first: usize) -> 
                 o.cases += 1;
                 o.impl_steps += sum.feeds;
                 o.decode_calls += sum.decode_calls;
-                outcomes.insert(format!("{:?}|{}|{:?}", idx, sum.emitted, sum.err));
+                // canonical observation: the frames really executed (up to the first error) + outcome
+                let ran = (sum.emitted + sum.err.is_some() as usize).min(idx.len());
+                outcomes.insert(format!("{:?}|{}|{:?}", &idx[..ran], sum.emitted, sum.err));
                 for f in &fs {
                     if !o.viol.iter().any(|v| v.clause == f.clause && v.signature == f.signature) {
                         o.viol.push(viol(f, replay_value(&s, &sgx, false), s.bytes.len() as u64 * 1000 + sgx.len() as u64));
                     }
                 }
+            }
+            if o.cases % 4096 == 0 && deadline.map(|d| Instant::now() > d).unwrap_or(false) {
+                o.capped = true;
+                break;
             }
             // next
             if idx.len() < depth {
@@ -722,6 +746,12 @@ fn mask_job(thorough: bool) -> Job {
                     }
                 }
             }
+            for k0 in 0..=255u8 {
+                for k1 in 0..=255u8 {
+                    let off = (k0 as usize + k1 as usize) % 4;
+                    dec(9, [k0, k1, k0 ^ 0x5a, k1.wrapping_add(k0)], off, 0, &mut o);
+                }
+            }
             for len in 41..=300usize {
                 for off in 0..4usize {
                     dec(len, KEYS[0], off, 0, &mut o);
@@ -872,13 +902,13 @@ fn self_test() {
 
 fn build_jobs(thorough: bool) -> Vec<(Job, bool)> {
     let mut jobs: Vec<(Job, bool)> = vec![];
-    let full_limit = if thorough { 1600 } else { 700 };
+    let full_limit = if thorough { 2200 } else { 700 };
     // long streams first (longest jobs)
     for (label, ts) in long_templates(thorough) {
         for server in [true, false] {
-            let maxes: &[usize] = if thorough { &MAX_SIZES } else { &[126, 65_536] };
+            let maxes: &[usize] = if thorough { &[0, 125, 126, 65_535, 65_536, 65_537] } else { &[126, 65_536] };
             for &mx in maxes {
-                jobs.push((seg_bfs_job(label.clone(), ts.clone(), server, mx, full_limit, if thorough { 1024 } else { 0 }), false));
+                jobs.push((seg_bfs_job(label.clone(), ts.clone(), server, mx, full_limit, if thorough { 512 } else { 0 }), false));
                 jobs.push((seg_twin_job(label.clone(), ts.clone(), server, mx, full_limit, 0, 0), false));
             }
         }
@@ -889,20 +919,20 @@ fn build_jobs(thorough: bool) -> Vec<(Job, bool)> {
             jobs.push((rt_job(c2s, Some(mx), thorough), true));
         }
     }
-    let (pair_limit, triple_limit) = if thorough { (150, 40) } else { (48, 22) };
+    let (pair_limit, triple_limit) = if thorough { (300, 56) } else { (48, 22) };
     for (k, (label, ts)) in templates(thorough).into_iter().enumerate() {
         for server in [true, false] {
-            for &mx in &MAX_SIZES {
+            for &mx in max_sizes(thorough) {
                 jobs.push((seg_bfs_job(label.clone(), ts.clone(), server, mx, full_limit, 0), k < 3));
                 jobs.push((seg_twin_job(label.clone(), ts.clone(), server, mx, full_limit, pair_limit, triple_limit), k < 3));
             }
         }
     }
     for server in [true, false] {
-        for &mx in &MAX_SIZES {
+        for &mx in max_sizes(thorough) {
             jobs.push((strict_bfs_job(server, mx, thorough), true));
             for first in 0..strict_seq_alphabet(server).len() {
-                jobs.push((strict_seq_job(server, mx, if thorough { 5 } else { 3 }, first), first < 2));
+                jobs.push((strict_seq_job(server, mx, if thorough { 6 } else { 3 }, first), first < 2));
             }
         }
     }
@@ -1003,9 +1033,6 @@ fn main() {
     if seed > 0 && !jobs.is_empty() {
         let k = seed % jobs.len();
         jobs.rotate_left(k);
-    }
-    if let Some(only) = std::env::var("CODECX_ONLY_IDX").ok().and_then(|s| s.parse::<usize>().ok()) {
-        jobs = jobs.into_iter().skip(only).take(1).collect();
     }
     let njobs = jobs.len();
     let queue: Mutex<VecDeque<(usize, (Job, bool))>> = Mutex::new(jobs.into_iter().enumerate().collect());
